@@ -28,17 +28,23 @@ PROPS = {
     "C02": dict(worlds=[("arena", 1.0)], quick=50_000, thorough=2_500_000),
     "C03": dict(worlds=[("arena", 1.0)], quick=50_000, thorough=2_500_000),
     "C05": dict(worlds=[("arena", 1.0)], quick=60_000, thorough=3_000_000),
-    "C07": dict(worlds=[("arena", 1.0)], quick=50_000, thorough=2_500_000),
+    "C06": dict(worlds=[("coll", 1.0)], quick=300_000, thorough=12_000_000),
+    "C07": dict(worlds=[("arena", 0.25), ("coll", 0.75)], quick=200_000, thorough=8_000_000),
+    "C08": dict(worlds=[("coll", 1.0)], quick=300_000, thorough=12_000_000),
     "C10": dict(worlds=[("arena", 1.0)], quick=60_000, thorough=3_000_000),
     "C12": dict(worlds=[("arena", 1.0)], quick=60_000, thorough=3_000_000),
     "C13": dict(worlds=[("arena", 1.0)], quick=60_000, thorough=3_000_000),
     "C14": dict(worlds=[("arena", 1.0)], quick=50_000, thorough=2_500_000),
+    "C15": dict(worlds=[("coll", 1.0)], quick=300_000, thorough=12_000_000),
+    "C16": dict(worlds=[("coll", 1.0)], quick=300_000, thorough=12_000_000),
     "C18": dict(worlds=[("arena", 1.0)], quick=60_000, thorough=3_000_000),
 }
 
-REAL = ["bump-scope (all of /repo/src, built from the working tree through /verif/shadow/Cargo.toml, opt-level=1, debug assertions and overflow checks on)"]
+REAL = ["bump-scope (all of /repo/src, built from the working tree through /verif/shadow/Cargo.toml, opt-level=0, debug assertions and overflow checks on)"]
 STUBS = {
-    "arena": ["base allocator: SimHeap (sim/src/heap.rs) behind 5 handle types", "callers: seeded interpreter (sim/src/bin/arena)"],
+    "arena": ["base allocator: SimHeap (simcore/src/heap.rs) behind 5 handle types", "callers: seeded interpreter (sim/src/bin/arena)"],
+    "coll": ["base allocator: SimHeap (simcore/src/heap.rs)", "element types, closures, iterators: Tracked elements with a drop ledger and scripted callbacks (sim/src/bin/coll/elem.rs, iters.rs)",
+             "std::vec::Vec<u32> reference model of the element sequence (oracle side)"],
 }
 
 
